@@ -12,6 +12,8 @@ the MAC / AEAD primitive; the theorems reduce it to `macInput_injective` + a tag
 -/
 import AskarModel.Model.Aead
 import AskarModel.Lemmas.Aead
+import AskarModel.Model.ResizeBuf
+import AskarModel.Lemmas.ResizeBuf
 
 namespace Askar.Aead
 open Askar.Crypto
@@ -247,5 +249,107 @@ example : ∃ c p, KeyWrap.unwrapWith (Lemmas.liftBA (toyCipher.dec [5])) KeyWra
   cases hu : KeyWrap.unwrapWith (Lemmas.liftBA (toyCipher.dec [5])) KeyWrap.defaultIV (List.toByteArray b) with
   | some p => exact ⟨b, p, hu⟩
   | none => rw [hu] at this; cases this
+
+/-! ## The buffer type as a dimension ("all keys, messages of every length" — over EVERY public `ResizeBuffer`)
+
+`Model/ResizeBuf.lean`: the contract of `ResizeBuffer` as list operations with a capacity (`LBuf`, `specImpl`; `Vec<u8>` and
+`SecretBytes` are the instance without capacity), `Writer<'_, [u8]>` with its index arithmetic in both variants
+(`writerImpl false` = today's source, `writerImpl true` = `/verif/proposals/C12-writer-resize-buffer.diff`), and every
+in-place operation as a program (`Prog`) over the trait methods.  `StepRel` / `RunRel` / `Refines` (Lemmas/ResizeBuf.lean):
+an implementation's outcome against the contract's — equal visible bytes (`WRel`: `inner[..pos]` = the list, `pos ≤ |inner|`,
+`|inner|` = the capacity), equal returned value, equal error; nothing is required where the contract's own precondition is
+violated (`pos ≤ len`, `s ≤ e ≤ len`: `Vec` panics there as well). -/
+
+section Buffer
+open Askar.ResizeBuf Askar.ResizeBuf.Lemmas
+
+/-- **The simulation argument.**  An implementation whose six methods refine the contract runs EVERY program over the trait
+    like the contract does: same returned value, related final buffer, same error (with `weak`: or `ExceededBuffer`). -/
+theorem buffer_run_refines {α β : Type} (I : BufImpl β) (R : β → LBuf → Prop) (weak : Prop) (h : Refines I R weak)
+    (prog : Prog α) (b : β) (l : LBuf) (hR : R b l) : RunRel R weak (prog.run I b) (prog.run specImpl l) :=
+  run_refines I R weak h prog b l hR
+
+/-- **`writer_refines_list`** — the full statement, for a variant of `Writer<[u8]>`: each of view / as_mut writes / write /
+    insert / remove / resize, from every state representing a list within capacity, with ANY arguments, has the list
+    result (content and position) if it fits, is `ExceededBuffer` if it does not, and does not panic unless `Vec` would. -/
+def WriterRefinesList (fixed : Bool) : Prop := Refines (writerImpl fixed) WRel False
+
+/-- It holds for the repaired variant … -/
+theorem writer_refines_list : WriterRefinesList true := writer_refines
+
+/-- … hence for every SEQUENCE of trait calls (`extend` = the trait's default method over `resize`) … -/
+theorem writer_refines_list_seq (ops : List Op) (w : Writer) (l : LBuf) (hR : WRel w l) :
+    RunRel WRel False ((Prog.ofOps ops).run (writerImpl true) w) ((Prog.ofOps ops).run specImpl l) :=
+  run_refines _ _ _ writer_refines _ w l hR
+
+/-- … and, spelled out, for every program (every in-place operation) started on `Writer::from_slice_position(input ‖ rest,
+    |input|)`: if the list run with capacity `|input| + |rest|` succeeds, the Writer run succeeds with the same returned
+    value, the list's bytes before the position and position = their number (whatever `rest` — the stale bytes — was);
+    if the list run is an error (`ExceededBuffer` when the capacity is exceeded), the Writer run is the same error. -/
+theorem writer_run_agrees {α : Type} (prog : Prog α) (input rest : Bytes) :
+    match prog.run specImpl ⟨input, some (input.length + rest.length)⟩ with
+    | .ok (l', a) => ∃ rest', prog.run (writerImpl true) ⟨input ++ rest, input.length⟩ = .ok (⟨l'.data ++ rest', l'.data.length⟩, a)
+    | .err e => prog.run (writerImpl true) ⟨input ++ rest, input.length⟩ = .err e
+    | .panic _ => True :=
+  Lemmas.writer_run_agrees prog input rest
+
+/-- A capacity only ever ADDS `ExceededBuffer`: the run over a bounded list against the run over `Vec` / `SecretBytes`
+    (no capacity) from the same bytes — same result, or `ExceededBuffer`. -/
+theorem capacity_only_adds_exceeded {α : Type} (prog : Prog α) (data : Bytes) (cap : Option Nat) :
+    RunRel CapRel True (prog.run specImpl ⟨data, cap⟩) (prog.run specImpl ⟨data, none⟩) :=
+  run_refines specImpl CapRel True capacity_refines prog _ _ ⟨rfl, rfl⟩
+
+/-- **The buffer type does not matter** for the eight algorithms' `encrypt_in_place` / `decrypt_in_place` (all keys, nonces,
+    associated data, buffer contents of every length, every instance of the primitives): over the repaired Writer they run
+    like over the list with the slice length as capacity. -/
+theorem inplace_buffer_independent (fixed5 : Bool) (P : Prims) (k : Key) (nonce aad : Bytes) (w : Writer) (l : LBuf) (hR : WRel w l) :
+    RunRel WRel False ((encryptInPlaceP P k nonce aad).run (writerImpl true) w) ((encryptInPlaceP P k nonce aad).run specImpl l) ∧
+    RunRel WRel False ((decryptInPlaceP fixed5 P k nonce aad).run (writerImpl true) w)
+      ((decryptInPlaceP fixed5 P k nonce aad).run specImpl l) :=
+  ⟨run_refines _ _ _ writer_refines _ w l hR, run_refines _ _ _ writer_refines _ w l hR⟩
+
+/-- The statement is FALSE for the current `Writer<[u8]>` (finding D38): `buffer_insert(0, [0; 8])` on a 16-byte prefix of a
+    24-byte slice computes `0 - 8` (`range.end - diff`) — what AES-KW wrap and `crypto_box` do first. -/
+theorem writer_refines_list_current_false : ¬ WriterRefinesList false := current_not_refines
+
+/-- Independently, `buffer_resize(len)` ADDS `len` to the position: `resize(11)` at position 27 gives 38, not 11. -/
+theorem writer_resize_current_false :
+    Writer.resize false ⟨zeros 91, 27⟩ 11 = .ok ⟨zeros 91, 38⟩ ∧
+    ¬ StepRel WRel False ((writerImpl false).resize ⟨zeros 91, 27⟩ 11) (LBuf.resize ⟨zeros 27, some 91⟩ 11) :=
+  ⟨current_resize_adds, current_resize_not_refines⟩
+
+/-- The witnesses at the level of the in-place operations (toy primitives): the 27-byte box of an 11-byte message decrypts
+    through the current Writer to "Ok" with position 38 (the list run: the 11 bytes); AES-KW wrap of 16 bytes panics. -/
+theorem writer_current_inplace_witnesses :
+    ((decryptInPlaceP true toyPrims ⟨.C20P, zeros 32⟩ (zeros 12) []).run specImpl ⟨List.replicate 27 7, none⟩
+        = .ok (⟨List.replicate 11 7, none⟩, ())) ∧
+    ((decryptInPlaceP true toyPrims ⟨.C20P, zeros 32⟩ (zeros 12) []).run (writerImpl false) ⟨List.replicate 27 7 ++ zeros 64, 27⟩
+        = .ok (⟨List.replicate 27 7 ++ zeros 64, 38⟩, ())) ∧
+    ((encryptInPlaceP toyPrims ⟨.A128Kw, zeros 16⟩ [] []).run (writerImpl false) ⟨zeros 16 ++ zeros 72, 16⟩
+        = .panic .arithOverflow) :=
+  ⟨current_decrypt_wrong_position.1, current_decrypt_wrong_position.2, current_kw_wrap_panics⟩
+
+/-- For the tree the driver runs against (`writerFixed`, to be read from `buffer/writer.rs`): the refinement holds iff the
+    source is repaired. -/
+theorem writer_refines_list_status :
+    (writerFixed = true ∧ WriterRefinesList writerFixed) ∨ (writerFixed = false ∧ ¬ WriterRefinesList writerFixed) := by
+  cases h : writerFixed with
+  | true => exact Or.inl ⟨rfl, writer_refines⟩
+  | false => exact Or.inr ⟨rfl, current_not_refines⟩
+
+/-- non-vacuity: a representing state exists for every input and spare capacity; the list runs of the in-place operations
+    succeed on concrete inputs (so the `ok` branch of `writer_run_agrees` is met); a bounded run does end in `ExceededBuffer` -/
+example (input rest : Bytes) : WRel ⟨input ++ rest, input.length⟩ ⟨input, some (input.length + rest.length)⟩ := wrel_mk input rest _ rfl
+example : (match (encryptInPlaceP toyPrims ⟨.A128CbcHs256, zeros 32⟩ (zeros 16) [9]).run specImpl ⟨[1, 2, 3], some 32⟩ with
+    | .ok (l, a) => decide (l.data.length = 32 ∧ a = 16) | _ => false) = true := by decide
+example : (encryptInPlaceP toyPrims ⟨.A128CbcHs256, zeros 32⟩ (zeros 16) [9]).run specImpl ⟨[1, 2, 3], some 31⟩ = .err exceeded := by decide
+example : (encryptInPlaceP toyPrims ⟨.A128CbcHs256, zeros 32⟩ (zeros 16) [9]).run (writerImpl true) ⟨[1, 2, 3] ++ List.replicate 29 0xEE, 3⟩
+    = (match (encryptInPlaceP toyPrims ⟨.A128CbcHs256, zeros 32⟩ (zeros 16) [9]).run specImpl ⟨[1, 2, 3], some 32⟩ with
+       | .ok (l, a) => .ok (⟨l.data, 32⟩, a) | .err e => .err e | .panic p => .panic p) := by decide
+example : (encryptInPlaceP toyPrims ⟨.A128Kw, zeros 16⟩ [] []).run (writerImpl true) ⟨zeros 16 ++ List.replicate 8 0xEE, 16⟩
+    = (match (encryptInPlaceP toyPrims ⟨.A128Kw, zeros 16⟩ [] []).run specImpl ⟨zeros 16, some 24⟩ with
+       | .ok (l, a) => .ok (⟨l.data, 24⟩, a) | .err e => .err e | .panic p => .panic p) := by decide
+
+end Buffer
 
 end Askar.Aead
